@@ -15,6 +15,7 @@ require (
 	github.com/llgcode/draw2d v0.0.0-20240627062922-0ed1ff131195 // indirect
 	github.com/qmuntal/opc v0.7.12 // indirect
 	golang.org/x/image v0.22.0 // indirect
+	gonum.org/v1/gonum v0.15.1 // indirect
 )
 
 replace github.com/deadsy/sdfx => /repo
